@@ -261,6 +261,15 @@ def r5(c):
     w = P.fn(WFE)
     nx2 = one(w.calls(CL + '::fail_next_request'), 'fail_next_request in wait_for_enabled')
     c.ob('wait_for_enabled/drains', w.in_cycle(nx2.node), 'while disabled, requests are failed one by one', '', nx2.loc())
+    # it gives up (Err(Shutdown)) only when the state change reported is Shutdown: a setting that leaves the channel disabled
+    # (a second disable, a decode-level change) keeps it waiting
+    sd_e = [e for e, v, info in w.variant_edges('rodbus::client::task::StateChange') if v == 'Shutdown' and (lambda sv: sv.kind == 'call' and sv.cs is nx2)(q.sem(w, info['place']))]
+    bad = [x['node'] for x in q.exits(w) if q.exit_is_failure(w, x) and not q.dominated_by_any(w, sd_e, x['node'])]
+    c.ob('wait_for_enabled/err-means-shutdown', bool(sd_e) and not bad, 'wait_for_enabled returns Err only on the StateChange::Shutdown outcome of fail_next_request', 'failure exits not behind it: %s' % bad, nx2.loc())
+    # and a closed queue (every handle dropped) is reported as that Shutdown
+    fr_ = P.find_impl('core::convert::From', 'rodbus::client::task::StateChange', 'from', 'rodbus::error::Shutdown')
+    xs_ = q.exits(fr_)
+    c.ob('closed-queue-is-shutdown', len(xs_) == 1 and xs_[0]['kind'] == 'agg' and xs_[0]['variant'] == 'Shutdown', 'From<Shutdown> for StateChange yields StateChange::Shutdown (dropping every handle ends the task also while it is not connected)', '', loc_of(fr_))
 
 
 @rule('C13', 'R13.6', 'shutdown ends the task from every position')
